@@ -31,10 +31,14 @@ func genC17(r *simrt.Rand, tier string, idx int) *hx.Program {
 	p.P["sticky"] = 95
 	p.P["seg"] = []int64{200, 1000, 100000}[r.Intn(3)]
 	p.P["seed"] = int64(r.Uint64() >> 1)
+	p.P["batchtime_ms"] = []int64{0, 5, 50}[r.Intn(3)]
+	p.P["batchmax"] = []int64{2, 16, 1024}[r.Intn(3)]
+	p.P["sticky"] = []int64{50, 80, 95}[r.Intn(3)]
 	n := 2 + r.Intn(8)
 	for i := 0; i < n; i++ {
 		size := []int64{0, 1, 16, 17, 64, 300, 1024, 4096}[r.Intn(8)]
-		p.Ops = append(p.Ops, hx.Op{K: "pub", A: []int64{size, int64(r.Uint64() >> 1)}})
+		// A[2]: how many further values are published concurrently with this one (same batch window)
+		p.Ops = append(p.Ops, hx.Op{K: "pub", A: []int64{size, int64(r.Uint64() >> 1), int64(r.Intn(4))}})
 	}
 	ntamper := 1 + r.Intn(3)
 	for i := 0; i < ntamper; i++ {
@@ -82,6 +86,10 @@ func execC17(t *testing.T, prog *hx.Program, dec *simrt.Decider, verbose bool) *
 	oc := runH3(t, prog, dec, verbose, 1, func(h *h3) {
 		os.Setenv("LIFTBRIDGE_ENCRYPTION_KEY", "0123456789abcdef0123456789abcdef")
 		defer os.Unsetenv("LIFTBRIDGE_ENCRYPTION_KEY")
+		h.cfgHook = func(n *simNode, c *Config) {
+			c.BatchMaxMessages = int(prog.Param("batchmax", 1024))
+			c.BatchMaxTime = time.Duration(prog.Param("batchtime_ms", 0)) * time.Millisecond
+		}
 		n := h.single()
 		if n == nil {
 			return
@@ -104,6 +112,14 @@ func execC17(t *testing.T, prog *hx.Program, dec *simrt.Decider, verbose bool) *
 		}
 		var pubs []pubd
 		read := func(node *simNode, off int64) (*subStream, bool) {
+			// a LEADER-policy ack may arrive before the high watermark covers the message; a subscription that
+			// starts above the HW is served from HW+1 (documented), so wait until the message is committed
+			for k := 0; k < 2000; k++ {
+				if p := node.srv.metadata.GetPartition("enc", 0); p != nil && !p.IsPaused() && p.log.HighWatermark() >= off {
+					break
+				}
+				simrt.Sleep(time.Millisecond)
+			}
 			ctx, cancel := ctxT(10 * time.Second)
 			defer cancel()
 			st := h.subscribe(node, ctx, &client.SubscribeRequest{Stream: "enc", StartPosition: client.StartPosition_OFFSET, StartOffset: off, StopPosition: client.StopPosition_STOP_OFFSET, StopOffset: off})
@@ -118,38 +134,74 @@ func execC17(t *testing.T, prog *hx.Program, dec *simrt.Decider, verbose bool) *
 			switch op.K {
 			case "pub":
 				r := simrt.NewRand(uint64(op.Arg(1, 1)))
-				size := int(op.Arg(0, 0))
-				val := make([]byte, size)
-				for j := range val {
-					val[j] = byte('a' + r.Intn(26)) // compressible, recognisable plaintext
+				// one value of the requested size plus A[2] companions published at the same time, so that
+				// several messages are sealed for one batch
+				type one struct {
+					val, marker []byte
+					off         int64
+					err         error
 				}
-				var marker []byte
-				if size >= 16 {
-					marker = []byte(fmt.Sprintf("MARK%012d", r.Uint64()%1000000000000))
-					copy(val[size-16:], marker)
-				}
-				var resp *client.PublishResponse
-				var err error
-				h.rpc(n, "publish", func(api *apiServer) {
-					ctx, cancel := ctxT(5 * time.Second)
-					defer cancel()
-					resp, err = api.Publish(ctx, &client.PublishRequest{Stream: "enc", Value: val, AckPolicy: client.AckPolicy_LEADER})
-				})
-				if err != nil || resp == nil || resp.Ack == nil {
-					h.oc.Trouble = fmt.Sprintf("publish: %v", err)
-					return
-				}
-				pubs = append(pubs, pubd{resp.Ack.Offset, val, marker})
-				published++
-				// what a subscriber gets is exactly what was published
-				st, ended := read(n, resp.Ack.Offset)
-				h.oc.Checks++
-				if !ended || len(st.msgs) != 1 || !bytes.Equal(st.msgs[0].Value, val) {
-					got := "nothing"
-					if len(st.msgs) > 0 {
-						got = fmt.Sprintf("%d bytes %q…", len(st.msgs[0].Value), trunc(st.msgs[0].Value, 24))
+				var batch []*one
+				for k := 0; k <= int(op.Arg(2, 0)); k++ {
+					size := int(op.Arg(0, 0))
+					if k > 0 {
+						size = []int{0, 16, 40, 300, 1500}[r.Intn(5)]
 					}
-					h.fail("C17/roundtrip", "C17/roundtrip", "published %d bytes at offset %d, a subscriber received %s (ended=%v err=%v)", size, resp.Ack.Offset, got, st.ended, st.err)
+					val := make([]byte, size)
+					for j := range val {
+						val[j] = byte('a' + r.Intn(26)) // compressible, recognisable plaintext
+					}
+					var marker []byte
+					if size >= 16 {
+						marker = []byte(fmt.Sprintf("MARK%012d", r.Uint64()%1000000000000))
+						copy(val[size-16:], marker)
+					}
+					batch = append(batch, &one{val: val, marker: marker, off: -1})
+				}
+				pending := len(batch)
+				for k, b := range batch {
+					b := b
+					h.s.GoNode(400+k, "publisher", func() {
+						defer func() { pending-- }()
+						var resp *client.PublishResponse
+						h.rpc(n, "publish", func(api *apiServer) {
+							ctx, cancel := ctxT(5 * time.Second)
+							defer cancel()
+							resp, b.err = api.Publish(ctx, &client.PublishRequest{Stream: "enc", Value: b.val, AckPolicy: client.AckPolicy_LEADER})
+						})
+						if b.err == nil && resp != nil && resp.Ack != nil {
+							b.off = resp.Ack.Offset
+						} else if b.err == nil {
+							b.err = fmt.Errorf("no ack")
+						}
+					})
+				}
+				simrt.WaitUntil("publishers", func() bool { return pending == 0 })
+				if verbose {
+					for _, b := range batch {
+						h.s.Logf("  published %d bytes -> offset %d err=%v", len(b.val), b.off, b.err)
+					}
+				}
+				for _, b := range batch {
+					if b.err != nil {
+						h.oc.Trouble = fmt.Sprintf("publish: %v", b.err)
+						return
+					}
+					pubs = append(pubs, pubd{b.off, b.val, b.marker})
+					published++
+				}
+				// what a subscriber gets is exactly what was published
+				for _, b := range batch {
+					st, ended := read(n, b.off)
+					h.oc.Checks++
+					if !ended || len(st.msgs) != 1 || !bytes.Equal(st.msgs[0].Value, b.val) {
+						got := "nothing"
+						if len(st.msgs) > 0 {
+							got = fmt.Sprintf("%d bytes %q…", len(st.msgs[0].Value), trunc(st.msgs[0].Value, 24))
+						}
+						h.fail("C17/roundtrip", "C17/roundtrip", "published %d bytes at offset %d (one of %d concurrent publishes), a subscriber received %s (ended=%v err=%v)", len(b.val), b.off, len(batch), got, st.ended, st.err)
+						break
+					}
 				}
 			case "tamper", "wrongkey":
 				if i > 0 && prog.Ops[i-1].K == "pub" {
